@@ -662,9 +662,19 @@ def install_proxy(H):
     proxy.__dict__.update(real.__dict__)
     loop_end = _loop_end(R.__file__)
 
+    def mine():
+        # only the RunEngine of THIS scenario reports: an engine left over from an earlier scenario of the same process
+        # (still winding down on its own, stopped, loop) must not add arrivals to this one
+        try:
+            return real.get_running_loop() is H.loop
+        except RuntimeError:
+            return False
+
     def sleep(delay, *a, **k):
         f = sys._getframe(1)
         name = f.f_code.co_name
+        if not mine():
+            return real.sleep(delay, *a, **k)
         if name == "_run":
             H.arrive("S1" if f.f_lineno <= loop_end else "S4")
         elif name == "_sleep":
@@ -674,6 +684,8 @@ def install_proxy(H):
         return real.sleep(delay, *a, **k)
 
     async def wait(futs, *a, **k):
+        if not mine():
+            return await real.wait(futs, *a, **k)
         H.blocked += 1
         try:
             return await real.wait(futs, *a, **k)
@@ -686,7 +698,7 @@ def install_proxy(H):
     return lambda: setattr(R, "asyncio", real)
 
 
-def run_scenario(sc, timeout=20.0):
+def run_scenario(sc, timeout=60.0):
     import contextlib
     import io
 
